@@ -237,6 +237,14 @@ func estimateExpansion(text string) float64 {
 	var bound func(fs []string, depth int) float64
 	bound = func(fs []string, depth int) float64 {
 		b := 1.0
+		// numbers that are only separated by blanks read as ONE number ("3 100" is 3100): bound by the concatenation too
+		cat := ""
+		for _, f := range fs {
+			if _, err := strconv.ParseFloat(f, 64); err == nil && !strings.ContainsAny(f, ".eExX_") {
+				cat += f
+			}
+		}
+		catv, _ := strconv.ParseFloat(cat, 64)
 		for _, f := range fs {
 			if v, err := strconv.ParseFloat(f, 64); err == nil {
 				if v > 1 {
@@ -258,6 +266,9 @@ func estimateExpansion(text string) float64 {
 			if b > 1e12 {
 				return b
 			}
+		}
+		if catv > b {
+			b = catv
 		}
 		return b
 	}
